@@ -430,6 +430,25 @@ func compareRegistryMulti(r lint.Registry, want []lintDesc) []string {
 			if meta == nil || *meta != d.Meta {
 				bad = append(bad, fmt.Sprintf("%s ByName(%s) disagrees with the model", k, n))
 			}
+			// the registry's own (deprecated, certificate-only) lookups are lookups too
+			if k == "cert" {
+				if dl := r.ByName(n); dl == nil || dl.Name != n || dl.Source != d.Source {
+					bad = append(bad, fmt.Sprintf("Registry.ByName(%s) does not find the registered certificate lint", n))
+				}
+				found := 0
+				for _, l := range r.BySource(d.Source) {
+					if l != nil && l.Name == n {
+						found++
+					}
+				}
+				if found != 1 {
+					bad = append(bad, fmt.Sprintf("Registry.BySource(%s) lists certificate lint %s %d times", d.Source, n, found))
+				}
+			} else if _, isCert := byKind["cert"][n]; !isCert {
+				if dl := r.ByName(n); dl != nil {
+					bad = append(bad, fmt.Sprintf("Registry.ByName(%s) returns a certificate lint for a name that only a %s lint carries", n, k))
+				}
+			}
 			if bs != 1 {
 				bad = append(bad, fmt.Sprintf("%s BySource(%s) lists %s %d times", k, d.Source, n, bs))
 			}
